@@ -11,6 +11,7 @@ def main(argv=None) -> int:
     ap.add_argument("pid")
     ap.add_argument("--tier", default=os.environ.get("VERIF_TIER", "quick"), choices=["quick", "thorough"])
     ap.add_argument("--replay")
+    ap.add_argument("--list", action="store_true", help="print every obligation with its verdict and back end")
     a = ap.parse_args(argv)
     os.environ["VERIF_TIER"] = a.tier
     repo = os.environ.get("VERIF_REPO", "/repo")
@@ -31,6 +32,9 @@ def main(argv=None) -> int:
         mod.run(report)
     except Exception:
         report.fault("checker crashed: " + traceback.format_exc()[-1500:])
+    if a.list:
+        for o in report.obs:
+            print(f"{o.verdict:9s} {o.backend or '?':12s} {o.ms:8.1f}ms {o.name}")
     return report.finish()
 
 
